@@ -232,6 +232,13 @@ func c18Sweep(run *common.Run, maxLen int) {
 			one(i, s)
 		}
 	})
+	// path-like list items: kept as written (a path cleaner would rewrite every one of them)
+	for _, w := range []string{"mock/", "./store", "a//b", "a/./b", "a/b/..", "/", ".", "./", "a/,./b , c/../d", "..", "vendor/,"} {
+		nStrings++
+		for i := 0; i < c18NOpt; i++ {
+			one(i, w)
+		}
+	}
 	// second alphabet for the boolean: reaches yes/on/On/no/0 with blanks and near misses
 	c18AllStrings([]string{"y", "e", "s", "o", "n", "N", " ", "0"}, maxLen, func(s string) {
 		nStrings++
